@@ -94,7 +94,7 @@ pub fn plans(prop: &str) -> Vec<Plan> {
         "C04" => vec![p("B", "session", 36_000, 1_500_000, 300)],
         "C05" => vec![p("B", "handshake", 36_000, 1_500_000, 250)],
         "C07" => vec![p("B", "hostile", 36_000, 1_500_000, 250)],
-        "C10" => vec![p("B", "handshake", 24_000, 800_000, 300), p("B", "session", 12_000, 400_000, 300), p("D", "scale", 1_500, 40_000, 60)],
+        "C10" => vec![p("B", "handshake", 48_000, 800_000, 300), p("B", "session", 12_000, 400_000, 300), p("D", "scale", 1_500, 40_000, 60)],
         "C17" => vec![p("B", "handshake", 18_000, 600_000, 250), p("B", "tamper", 600, 12_000, 120)],
         "C18" => vec![p("B", "liveness", 24_000, 1_000_000, 300), p("B", "handshake", 12_000, 400_000, 250), p("D", "scale", 1_000, 30_000, 60)],
         "C19" => vec![p("B", "hostile", 18_000, 600_000, 250), p("B", "handshake", 18_000, 600_000, 250)],
